@@ -614,7 +614,7 @@ pub fn gen_param(rng: &mut Rng) -> V {
         0 | 1 => (-7, "public-key".into()),
         2 | 3 => (-8, "public-key".into()),
         4 => (
-            *rng.pick(&[-257i128, -35, -36, -37, -65535, 0, 1, 23, 24, -24, -25, -9, -6, 2147483647, -2147483648]),
+            *rng.pick(&[-257i128, -35, -36, -37, -65535, 0, 1, 23, 24, -24, -25, -9, -6, 2147483647, -2147483648, 65529, 65528, -65543, -65544, 249, 248, -263, -264, 7, 8]),
             "public-key".into(),
         ),
         5 => (*rng.pick(&[-7i128, -8]), {
